@@ -62,7 +62,7 @@ func keyCtors(w *core.World, f *core.FuncInfo, depth int, out map[string]int, se
 		}
 		out["key:<"+fmt.Sprintf("%T", e)+">"]++
 	}
-	ast.Inspect(f.Body(), func(x ast.Node) bool {
+	core.InspectBody(f, func(x ast.Node) bool {
 		switch s := x.(type) {
 		case *ast.CompositeLit:
 			t := info.TypeOf(s)
@@ -161,7 +161,7 @@ func delValuesNil(r *Run, fn string, sharedHelpers ...string) {
 	info := f.Info()
 	kvT, _ := r.W.LookupObj("types.KeyValue").(*types.TypeName)
 	bad := ""
-	ast.Inspect(f.Body(), func(x ast.Node) bool {
+	core.InspectBody(f, func(x ast.Node) bool {
 		s, ok := x.(*ast.CompositeLit)
 		if !ok {
 			return true
@@ -185,7 +185,7 @@ func delValuesNil(r *Run, fn string, sharedHelpers ...string) {
 	usesHelper := false
 	niled := false
 	hs := core.Names(sharedHelpers...)
-	ast.Inspect(f.Body(), func(x ast.Node) bool {
+	core.InspectBody(f, func(x ast.Node) bool {
 		switch s := x.(type) {
 		case *ast.CallExpr:
 			if hs.Has(core.Callee(info, s)) {
@@ -317,7 +317,7 @@ func init() {
 					if fa != nil && fd != nil {
 						sig := func(f *core.FuncInfo) string {
 							var out []string
-							ast.Inspect(f.Body(), func(y ast.Node) bool {
+							core.InspectBody(f, func(y ast.Node) bool {
 								if call, ok := y.(*ast.CallExpr); ok && core.ShortName(core.Callee(f.Info(), call)) == "system/dapp/coins/executor.updateAddrReciver" && len(call.Args) == 4 {
 									addr := call.Args[1]
 									if id, ok := ast.Unparen(addr).(*ast.Ident); ok {
